@@ -43,7 +43,8 @@ func c12Gen(rt *rapid.T) c12Case {
 	}
 	c.Rules = RulesSpec{ValidityWindow: 60000, MaxActions: 16, BaseCompute: cost("base"),
 		KeyRead: cost("kr"), ValRead: cost("vr"), KeyAlloc: cost("ka"), ValAlloc: cost("va"), KeyWrite: cost("kw"), ValWrite: cost("vw")}
-	tx := fixture.TxSpec{Sponsor: rapid.IntRange(0, 3).Draw(rt, "sponsor"), AuthStart: -1, AuthEnd: -1, Expiry: baseTime, AuthCompute: cost("authc")}
+	tx := fixture.TxSpec{Sponsor: rapid.IntRange(0, 3).Draw(rt, "sponsor"), AuthStart: -1, AuthEnd: -1, Expiry: baseTime, AuthCompute: cost("authc"),
+		AuthPad: rapid.SampledFrom([]int{0, 0, 0, 35, 36, 37, 300}).Draw(rt, "authpad")}
 	// key pool with arbitrary suffixes, duplicates across actions and with the sponsor key
 	var pool [][]byte
 	for _, n := range []byte("abc") {
